@@ -209,6 +209,7 @@ type CheckResult struct {
 	Bounded     map[string]bool
 	NoInv       map[string]bool
 	OutOfSubset map[string]bool
+	Skipped     map[string]bool
 	KnownHit    []string
 	DeadReturns []string
 	Failed      []*Obl
@@ -219,7 +220,7 @@ type CheckResult struct {
 }
 
 func (p *Prog) CheckProperty(prop, tier string, seed int) *CheckResult {
-	res := &CheckResult{Prop: prop, Tier: tier, Seed: seed, Backends: map[string]int{}, Trusted: map[string]bool{}, Assumed: map[string]bool{}, Inlined: map[string]bool{}, Unspec: map[string]bool{}, Bounded: map[string]bool{}, NoInv: map[string]bool{}, OutOfSubset: map[string]bool{}, Extra: map[string]interface{}{}}
+	res := &CheckResult{Prop: prop, Tier: tier, Seed: seed, Backends: map[string]int{}, Trusted: map[string]bool{}, Assumed: map[string]bool{}, Inlined: map[string]bool{}, Unspec: map[string]bool{}, Bounded: map[string]bool{}, NoInv: map[string]bool{}, OutOfSubset: map[string]bool{}, Skipped: map[string]bool{}, Extra: map[string]interface{}{}}
 	units := p.unitsForProperty(prop)
 	res.Units = units
 	timeout := 10000
@@ -263,6 +264,9 @@ func (p *Prog) CheckProperty(prop, tier string, seed int) *CheckResult {
 		}
 		for k := range e.noInvLoops {
 			res.NoInv[k] = true
+		}
+		for k := range e.skippedEnsures {
+			res.Skipped[k] = true
 		}
 		for _, o := range r.Obls {
 			unitOf[o] = c
@@ -484,6 +488,7 @@ func (r *CheckResult) writeEvidence() {
 		"bounded":                   keys(r.Bounded),
 		"out_of_subset":             keys(r.OutOfSubset),
 		"known_findings_hit":        r.KnownHit,
+		"callee_internal_ensures_not_assumed": keys(r.Skipped),
 		"unreachable_returns":       r.DeadReturns,
 		"lemmas":                    r.Lemmas,
 		"static_checks":             r.Statics,
